@@ -28,6 +28,7 @@ type Lambda struct {
 // Call the the function with the arguments provided.
 func (lam *Lambda) Call(s *Scope, args List, depth int) (result Object) {
 	ss := s.NewScope()
+	ss.call = !lam.Macro // a macro expansion is evaluated in ss by backquote and needs the blocks of the caller
 	if lam.Closure != nil {
 		ss.parents = append(ss.parents, lam.Closure)
 		ss.Macro = lam.Closure.Macro
